@@ -2,7 +2,7 @@
 # usage: tools_ingest.sh <pid> <name> [round-letter]   -- confirm a sub-agent's change in its scratch worktree, store it under seeded/, remove the worktree
 set -u
 pid=$1; name=$2; letter=${3:-d}
-case $letter in d) wt=/tmp/wt4_$pid;; e) wt=/tmp/wt5_$pid;; f) wt=/tmp/wt6_$pid;; g) wt=/tmp/wt7_$pid;; h) wt=/tmp/wt8_$pid;; i) wt=/tmp/wt9_$pid;; j) wt=/tmp/wt10_$pid;; esac
+case $letter in d) wt=/tmp/wt4_$pid;; e) wt=/tmp/wt5_$pid;; f) wt=/tmp/wt6_$pid;; g) wt=/tmp/wt7_$pid;; h) wt=/tmp/wt8_$pid;; i) wt=/tmp/wt9_$pid;; j) wt=/tmp/wt10_$pid;; k) wt=/tmp/wt11_$pid;; esac
 dest=/verif/seeded/${pid}${letter}-$name
 cd $wt || exit 2
 git diff -- ptera > /tmp/ingest_$pid.diff
